@@ -48,12 +48,13 @@ def run(ctx):
     rng = ctx.rng
     specs = [{"spec": lpgen.gen_spec(rng), "solve": False} for _ in range(nsyn)]
     specs += [{"spec": lpgen.gen_spec(rng, solvable=True, nmax=16), "solve": True} for _ in range(nsolve)]
+    specs += [{"spec": lpgen.gen_targeted(rng, k), "solve": True} for k in range(16 if ctx.quick else 240)]
     corpus = load_corpus()
     specs = [{"spec": c, "solve": True} for c in corpus] + specs
-    must = [pools.option(ratio_stocks_untouched="no_stored_between_years", scenario="all_resilient_foods"),
+    must = [pools.option(ratio_stocks_untouched="no_stored_between_years", scenario="all_resilient_foods", shutoff="continued"),
             pools.option(scenario="seaweed", shutoff="continued"),
             dict(pools.BASELINE_OPTION)]
-    real = pools.sample_runs(rng, nreal, must=must[: (2 if ctx.quick else 3)], horizons=(120,) if ctx.quick else (48, 72, 120))
+    real = pools.sample_runs(rng, nreal, must=must[: (2 if ctx.quick else 3)], countries=["USA", "ARG", "BRA", "IND", "CHN", "FRA"] if ctx.quick else None, horizons=(120,) if ctx.quick else (48, 72, 120))
     res = ctx.run_impl("lp_impl", {"synthetic": specs, "real": real, "rows_for_real": True, "procs": 14})
     dist = {"synthetic_built": 0, "synthetic_solved": 0, "synthetic_infeasible": 0, "assert_rejected": 0,
             "real_runs": 0, "real_solves": 0, "to_humans": 0, "to_animals": 0, "flags": {}, "N": {}}
